@@ -383,4 +383,32 @@ def rule_d(prog, rep):
                       key='C16.d/psubscribe')
 
 
-RULES = [('C16.a', rule_a), ('C16.b', rule_b), ('C16.c', rule_c), ('C16.d', rule_d)]
+def rule_e(prog, rep):
+    rep.rule('C16.e', 'T1', 'a scheduled flush is never cancelled or postponed: the aggregator arms a timer (spawned sleep + trigger) and '
+             'forgets it - it keeps no JoinHandle / AbortHandle and calls no abort / reset on a timer; an event buffered after an '
+             'early (conflict) flush relies on the timer that is already running, cancelling that timer when the next one is '
+             'armed lets the event wait for almost two intervals')
+    crate = prog.crate(WB)
+    a = crate.adt(AGG)
+    bad_fields = [x['name'] for x in a['variants'][0]['fields'] if any(t in x['ty'] for t in ('JoinHandle', 'AbortHandle', 'Sleep', 'Interval', 'JoinSet'))]
+    bad_calls = []
+    n = 0
+    for f in crate.top_fns():
+        if not f.path.startswith(AGG + '::'):
+            continue
+        n += 1
+        for b_ in [f] + crate.closures_of(f):
+            for nd, anc in walk(b_.hir):
+                if nd.get('k') == 'call' and short(callee(nd)) in ('abort', 'abort_all', 'reset', 'reset_immediately', 'reset_after', 'reset_at') and \
+                        any(t in callee(nd) for t in ('JoinHandle', 'AbortHandle', 'Sleep', 'Interval', 'JoinSet', 'tokio::time', 'tokio::task')):
+                    bad_calls.append((f, nd))
+    if bad_fields or bad_calls:
+        where = loc(bad_calls[0][0], bad_calls[0][1]) if bad_calls else f"{a['file']}:{a['line']}"
+        rep.violation('C16.e', 'aggregator-timers', where, f'the aggregator can cancel / postpone an armed flush (fields {bad_fields}, '
+                      f'calls {[short(callee(nd)) for _, nd in bad_calls]})', key='C16.e/timer-cancel')
+    else:
+        rep.ok('C16.e', 'aggregator-timers', f"{a['file']}:{a['line']}", f'{n} aggregator functions: timers are armed and never cancelled')
+    rep.floor('C16.e', n, 8, 'functions of the aggregator state')
+
+
+RULES = [('C16.e', rule_e), ('C16.a', rule_a), ('C16.b', rule_b), ('C16.c', rule_c), ('C16.d', rule_d)]
